@@ -198,17 +198,22 @@ Proof.
 Qed.
 
 (* ---- the ancestral recursion is a joint ancestral sample when the order is valid -------------------- *)
+Lemma ancestral_cons e p r : ancestral e (p :: r) = ancestral (anc1 e p) r.
+Proof. reflexivity. Qed.
+
 Lemma anc_tgt_keep ds i : forall e, (forall p, In p ds -> d_tgt (fst p) <> i) ->
   getv (ancestral e ds) i = getv e i.
 Proof.
-  induction ds as [|p r IH]; intros e H; [reflexivity|]. cbn. rewrite IH by (intros q Hq; apply H; right; exact Hq).
+  induction ds as [|p r IH]; intros e H; [reflexivity|]. rewrite ancestral_cons.
+  rewrite IH by (intros q Hq; apply H; right; exact Hq).
   unfold Simulate.anc1, Graph.getv. apply nth_upd_neq. intros Heq. apply (H p); [left; reflexivity|auto].
 Qed.
 
 Lemma anc_den_keep ds k : forall e, (forall p, In p ds -> reaches g (d_tgt (fst p)) k = false) ->
   denote g (ancestral e ds) k = denote g e k.
 Proof.
-  induction ds as [|p r IH]; intros e H; [reflexivity|]. cbn. rewrite IH by (intros q Hq; apply H; right; exact Hq).
+  induction ds as [|p r IH]; intros e H; [reflexivity|]. rewrite ancestral_cons.
+  rewrite IH by (intros q Hq; apply H; right; exact Hq).
   unfold Simulate.anc1. apply (den_unreached V F interp dflt g W). apply H. left. reflexivity.
 Qed.
 
@@ -219,9 +224,7 @@ Proof.
   induction ds as [|[d sd] r IH]; intros now Ho Hl; [exact Logic.I|].
   cbn [map fst] in Ho. destruct Ho as [Hr [Hdist Ho]]. inversion Hl as [|? ? Hl1 Hl2]. subst.
   cbn [Simulate.joint fst snd]. split.
-  - cbn [Simulate.ancestral fold_left].
-    change (fold_left (Simulate.anc1 interp dflt sample g) r (anc1 now (d, sd))) with (ancestral (anc1 now (d, sd)) r).
-    rewrite anc_tgt_keep.
+  - rewrite ancestral_cons. rewrite anc_tgt_keep.
     + unfold Simulate.anc1 at 1. cbn [fst snd]. unfold Graph.getv. rewrite nth_upd_eq by exact Hl1.
       unfold Simulate.anc_draw. f_equal. apply map_ext_in. intros p Hp. symmetry.
       rewrite anc_den_keep.
@@ -229,7 +232,7 @@ Proof.
         apply (Hr d); [left; reflexivity|exact Hp].
       * intros q Hq. apply (Hr (fst q)); [right; apply in_map; exact Hq|exact Hp].
     + intros q Hq. apply Hdist. apply in_map. exact Hq.
-  - apply IH; [exact Ho|]. unfold Simulate.anc1. rewrite upd_length. exact Hl2.
+  - rewrite ancestral_cons. apply IH; [exact Ho|]. unfold Simulate.anc1. rewrite upd_length. exact Hl2.
 Qed.
 
 (* ---- a following update() -------------------------------------------------------------------------- *)
@@ -259,15 +262,15 @@ Proof.
   unfold Simulate.sim_loop_memo, Simulate.sim_loop_lit in *. cbn [sim_loop].
   assert (E1 : refreshed (memo interp dflt) R g rs d = refreshed LIT R g rs d).
   { destruct R; [reflexivity|]. unfold refreshed. f_equal.
-    apply (step_memo_lit V F interp dflt g W). apply (RInv_len V F interp dflt g rs Ri). }
+    exact (step_memo_lit V F interp dflt g W rs _ (RInv_len V F interp dflt g rs Ri)). }
   assert (R1 : RInv (refreshed LIT R g rs d)).
-  { destruct R; [exact Ri|]. apply (step_RInv V F interp dflt g W). exact Ri. }
+  { destruct R; [exact Ri|]. exact (step_RInv V F interp dflt g W rs _ Ri). }
   assert (E2 : draw1 dflt sample (memo interp dflt) (mvalues_all interp dflt) R g rs d sd
                = draw1 dflt sample LIT (values_all interp dflt) R g rs d sd).
   { unfold draw1. rewrite E1. unfold drawn, mvalues_all. rewrite (effv_tab_lit V F interp dflt g W).
-    apply (step_memo_lit V F interp dflt g W). apply (RInv_len V F interp dflt g _ R1). }
+    exact (step_memo_lit V F interp dflt g W _ _ (RInv_len V F interp dflt g _ R1)). }
   rewrite E2. destruct (err _); [reflexivity|]. apply IH.
-  unfold draw1. apply (step_RInv V F interp dflt g W). exact R1.
+  unfold draw1. exact (step_RInv V F interp dflt g W _ _ R1).
 Qed.
 
 (* ---- auto-update on, nothing outdated: refreshing changes nothing ------------------------------------ *)
@@ -322,6 +325,78 @@ Proof.
   destruct (kd n) eqn:K; try (split; reflexivity). exfalso. apply H. exists n. auto.
 Qed.
 
+(* ---- the packaged statements ----------------------------------------------------------------------------- *)
+Lemma agreeV_sym a b : agreeV a b -> agreeV b a.
+Proof. intros H k n E K. symmetry. apply (H k n E K). Qed.
+
+Lemma joint_agree ds : forall now fin anc, agreeV fin anc -> Forall tgt_value (map fst ds) ->
+  joint ds now anc -> joint ds now fin.
+Proof.
+  induction ds as [|[d sd] r IH]; intros now fin anc Ag Ht J; [exact Logic.I|].
+  cbn [map fst] in Ht. inversion Ht as [|? ? Ht1 Ht2]. subst.
+  cbn [Simulate.joint fst snd] in *. destruct J as [J1 J2]. split.
+  - destruct Ht1 as [n [E K]]. rewrite (Ag _ n E K). rewrite J1. f_equal.
+    apply map_ext. intros p. symmetry. apply agreeV_den. exact Ag.
+  - apply (IH _ fin anc Ag Ht2 J2).
+Qed.
+
+(* simulate on any reachable state, variant RefreshInputs, any auto setting *)
+Theorem simulate_spec rs order skip seeds : RInv rs ->
+  let ds := combine (filter (selected skip) order) seeds in
+  Forall dinfo_ok (map fst ds) -> Forall tgt_value (map fst ds) -> order_ok g (map fst ds) ->
+  let r := simulate_lit interp dflt sample RefreshInputs g rs order skip seeds in
+  let fin := vals (cur (fst r)) in
+  snd r = false
+  /\ RInv (fst r)
+  /\ auto (cur (fst r)) = auto (cur rs)
+  /\ joint ds (vals (cur rs)) fin
+  /\ agreeV fin (ancestral (vals (cur rs)) ds)
+  /\ (forall k n, nth_error g k = Some n -> kd n = KValue ->
+        (forall p, In p ds -> d_tgt (fst p) <> k) -> getv fin k = getv (vals (cur rs)) k)
+  /\ (let rs2 := st' (step g (fst r) (Update [])) in
+      agreeV (vals (cur rs2)) fin
+      /\ forall k, k < length g ->
+           outdated g (cur rs2) k = false /\ value g (cur rs2) k = denote g fin k).
+Proof.
+  intros R ds Hd Ht Ho r fin.
+  pose proof (RInv_len V F interp dflt g rs R) as Le.
+  destruct (sim_ancestral ds rs (vals (cur rs)) R Hd Ht Le (agreeV_refl _)) as [A [B [C [D _]]]].
+  change (sim_lit RefreshInputs g rs ds) with r in A, B, C, D. fold fin in D.
+  split; [exact A|]. split; [exact B|]. split; [exact C|]. split; [|split; [exact D|split]].
+  - apply (joint_agree ds _ fin (ancestral (vals (cur rs)) ds) D Ht).
+    apply joint_ancestral; [exact Ho|].
+    apply Forall_forall. intros p Hp. rewrite Forall_forall in Ht.
+    destruct (Ht (fst p) (in_map fst _ _ Hp)) as [n [E _]]. rewrite Le. exact (wf_lt F g _ _ E).
+  - intros k n E K Hk. rewrite (D k n E K). apply anc_tgt_keep. exact Hk.
+  - destruct (update_all_spec (fst r) B) as [_ [U1 U2]]. split; [exact U1|exact U2].
+Qed.
+
+(* the drawn values depend on the start state only through the values of the Value nodes: not on the
+   auto-update setting, not on which cached values are stale *)
+Theorem simulate_determined rs1 rs2 order skip seeds : RInv rs1 -> RInv rs2 ->
+  agreeV (vals (cur rs1)) (vals (cur rs2)) ->
+  let ds := combine (filter (selected skip) order) seeds in
+  Forall dinfo_ok (map fst ds) -> Forall tgt_value (map fst ds) ->
+  agreeV (vals (cur (fst (simulate_lit interp dflt sample RefreshInputs g rs1 order skip seeds))))
+         (vals (cur (fst (simulate_lit interp dflt sample RefreshInputs g rs2 order skip seeds)))).
+Proof.
+  intros R1 R2 Ag ds Hd Ht.
+  pose proof (RInv_len V F interp dflt g rs1 R1) as Le.
+  destruct (sim_ancestral ds rs1 (vals (cur rs1)) R1 Hd Ht Le (agreeV_refl _)) as [_ [_ [_ [D1 _]]]].
+  destruct (sim_ancestral ds rs2 (vals (cur rs1)) R2 Hd Ht Le (agreeV_sym _ _ Ag)) as [_ [_ [_ [D2 _]]]].
+  eapply agreeV_trans; [exact D1|]. apply agreeV_sym. exact D2.
+Qed.
+
+Theorem simulate_memo_lit R rs order skip seeds : RInv rs ->
+  simulate_memo interp dflt sample R g rs order skip seeds
+  = simulate_lit interp dflt sample R g rs order skip seeds.
+Proof. intros Ri. apply sim_memo_lit. exact Ri. Qed.
+
+Theorem simulate_auto_on rs order skip seeds : RInv rs -> auto (cur rs) = true -> clean (cur rs) ->
+  simulate_lit interp dflt sample NoRefresh g rs order skip seeds
+  = simulate_lit interp dflt sample RefreshInputs g rs order skip seeds.
+Proof. intros R Au C. apply sim_auto_on; assumption. Qed.
+
 End SP.
 
 (* ---- shapes: sample_shape = value_shape[: len(value_shape) - len(batch_shape) - len(event_shape)] ---- *)
@@ -342,3 +417,172 @@ Qed.
 Lemma shape_example :
   sample_shape [7; 3; 2] [3] [2] = [7] /\ sample_shape [3; 2] [3] [2] = [] /\ sample_shape [5] [] [] = [5].
 Proof. repeat split. Qed.
+
+(* ---- the simulation graph of the code induces a valid visiting order ----------------------------------
+   es = Model._build_simulation_graph with the edges Dist -> value node of fix 94cdd67.  If the visited
+   distributions come in an order that a topological order of es induces ([sim_topo]), then the order is
+   valid ([order_ok]) - provided the model is hierarchical (no variable is an ancestor of a parameter of
+   its own distribution), no parameter is the evaluation point, no variable is drawn twice, and NO
+   PARAMETER DEPENDS ON A Dist NODE (C17_logprob_param_refuted shows that this cannot be dropped). *)
+Section SG.
+Variables (F : Type) (g : graph F).
+Hypothesis W : wf g.
+Variable dists : list (dinfo F).
+Hypothesis Hdk : forallb (dinfo_okb g) dists = true.
+
+Let es := sim_edges true g dists.
+Definition isdist (q : nat) : Prop := exists d, In d dists /\ d_node d = q.
+
+Lemma nlist_eqb_eq l1 : forall l2, nlist_eqb l1 l2 = true -> l1 = l2.
+Proof.
+  induction l1 as [|x l IH]; intros [|y l2] H; cbn in H; try discriminate; auto.
+  apply andb_true_iff in H. destruct H as [Hx Hl]. apply Nat.eqb_eq in Hx. subst. f_equal. auto.
+Qed.
+
+Lemma dist_ins d : In d dists -> exists n, nth_error g (d_node d) = Some n /\ ins n = d_params d ++ [d_at d].
+Proof.
+  intros Hd. rewrite forallb_forall in Hdk. specialize (Hdk d Hd). unfold dinfo_okb in Hdk.
+  apply andb_true_iff in Hdk. destruct Hdk as [H1 _].
+  destruct (nth_error g (d_node d)) as [n|]; [|discriminate]. exists n. split; [reflexivity|].
+  apply andb_true_iff in H1. destruct H1 as [H1 _]. apply nlist_eqb_eq. exact H1.
+Qed.
+
+Lemma combine_seq_in (h : graph F) : forall s k n, nth_error h k = Some n ->
+  In (s + k, n) (combine (seq s (length h)) h).
+Proof.
+  induction h as [|m h IH]; intros s [|k] n E; cbn in *; try discriminate.
+  - injection E as <-. left. f_equal. lia.
+  - right. replace (s + S k) with (S s + k) by lia. apply IH. exact E.
+Qed.
+
+Lemma is_at_false k i : ~ isdist k -> is_at dists k i = false.
+Proof.
+  intros H. unfold is_at. destruct (existsb _ dists) eqn:E; [|reflexivity]. exfalso.
+  apply existsb_exists in E. destruct E as [d [Hd Hb]]. apply andb_true_iff in Hb. destruct Hb as [Hb _].
+  apply Nat.eqb_eq in Hb. apply H. exists d. auto.
+Qed.
+
+Lemma edge_in k n i : nth_error g k = Some n -> In i (ins n) ->
+  In (if is_at dists k i then (k, i) else (i, k)) es.
+Proof.
+  intros E Hi. unfold es, sim_edges. apply in_or_app. left. apply in_flat_map.
+  exists (k, n). split; [exact (combine_seq_in g 0 k n E)|]. cbn [fst snd].
+  apply in_map_iff. exists i. auto.
+Qed.
+
+Lemma edge_plain k n i : nth_error g k = Some n -> In i (ins n) -> is_at dists k i = false -> In (i, k) es.
+Proof. intros E Hi Hf. pose proof (edge_in k n i E Hi) as H. rewrite Hf in H. exact H. Qed.
+
+Lemma edge_tgt d : In d dists -> In (d_node d, d_tgt d) es.
+Proof.
+  intros Hd. destruct (Nat.eq_dec (d_tgt d) (d_at d)) as [Heq|Hne].
+  - rewrite Heq. destruct (dist_ins d Hd) as [n [E Hi]].
+    assert (Hin : In (d_at d) (ins n)) by (rewrite Hi; apply in_or_app; right; left; reflexivity).
+    pose proof (edge_in _ n _ E Hin) as H.
+    assert (Ht : is_at dists (d_node d) (d_at d) = true).
+    { unfold is_at. apply existsb_exists. exists d. split; [exact Hd|]. rewrite !Nat.eqb_refl. reflexivity. }
+    rewrite Ht in H. exact H.
+  - unfold es, sim_edges. apply in_or_app. right. apply in_flat_map. exists d. split; [exact Hd|].
+    apply Nat.eqb_neq in Hne. rewrite Hne. left. reflexivity.
+Qed.
+
+Lemma ereach_refl f a : ereach es f a a = true.
+Proof. destruct f; cbn; rewrite Nat.eqb_refl; reflexivity. Qed.
+
+Lemma ereach_snoc c b : In (b, c) es -> forall f a, ereach es f a b = true -> ereach es (S f) a c = true.
+Proof.
+  intros Hin.
+  assert (Base : forall f, ereach es (S f) b c = true).
+  { intros f. cbn [ereach]. apply orb_true_iff. right. apply existsb_exists. exists (b, c). split; [exact Hin|].
+    cbn [fst snd]. rewrite Nat.eqb_refl. apply ereach_refl. }
+  induction f as [|f IH]; intros a H.
+  - cbn in H. rewrite orb_false_r in H. apply Nat.eqb_eq in H. subst. apply Base.
+  - cbn [ereach] in H. apply orb_true_iff in H. destruct H as [H|H].
+    + apply Nat.eqb_eq in H. subst. apply Base.
+    + apply existsb_exists in H. destruct H as [e [He Hb]]. apply andb_true_iff in Hb. destruct Hb as [Hb1 Hb2].
+      change (ereach es (S (S f)) a c) with ((a =? c) || existsb (fun e => (fst e =? a) && ereach es (S f) (snd e) c) es).
+      apply orb_true_iff. right. apply existsb_exists. exists e. split; [exact He|].
+      rewrite Hb1. cbn [andb]. apply IH; assumption.
+Qed.
+
+Lemma ereach_cons a b c f : In (a, b) es -> ereach es f b c = true -> ereach es (S f) a c = true.
+Proof.
+  intros Hin H. change (ereach es (S f) a c) with ((a =? c) || existsb (fun e => (fst e =? a) && ereach es f (snd e) c) es).
+  apply orb_true_iff. right. apply existsb_exists. exists (a, b). split; [exact Hin|].
+  cbn [fst snd]. rewrite Nat.eqb_refl. exact H.
+Qed.
+
+Lemma ereach_S f : forall a b, ereach es f a b = true -> ereach es (S f) a b = true.
+Proof.
+  induction f as [|f IH]; intros a b H.
+  - cbn in H. rewrite orb_false_r in H. apply Nat.eqb_eq in H. subst. apply ereach_refl.
+  - cbn [ereach] in H. apply orb_true_iff in H. destruct H as [H|H].
+    + apply Nat.eqb_eq in H. subst. apply ereach_refl.
+    + apply existsb_exists in H. destruct H as [e [He Hb]]. apply andb_true_iff in Hb. destruct Hb as [Hb1 Hb2].
+      change (ereach es (S (S f)) a b) with ((a =? b) || existsb (fun e => (fst e =? a) && ereach es (S f) (snd e) b) es).
+      apply orb_true_iff. right. apply existsb_exists. exists e. split; [exact He|].
+      rewrite Hb1. cbn [andb]. apply IH. exact Hb2.
+Qed.
+
+Lemma ereach_le f f' a b : f <= f' -> ereach es f a b = true -> ereach es f' a b = true.
+Proof. induction 1 as [|m Hm IH]; intros H; [exact H|]. apply ereach_S. apply IH. exact H. Qed.
+
+(* a path of the node graph that ends above a parameter p below which there is no Dist node is a path
+   of the simulation graph *)
+Lemma path_ereach p : (forall q, isdist q -> ~ path F g q p) ->
+  forall i k, path F g i k -> path F g k p -> ereach es (k - i) i k = true.
+Proof.
+  intros Hp i k P. induction P as [i Hi|i j k n P IH E Hj]; intros Pk.
+  - apply ereach_refl.
+  - pose proof (wf_in F g k n j W E Hj) as Hjk. pose proof (path_le F g W i j P) as Hij.
+    assert (Pj : path F g j p).
+    { apply (path_trans F g j k p); [|exact Pk].
+      apply (path_step F g j j k n); [apply path_refl; pose proof (wf_lt F g k n E); lia|exact E|exact Hj]. }
+    assert (Hnd : ~ isdist k) by (intros Hd; exact (Hp k Hd Pk)).
+    apply (ereach_le (S (j - i))); [lia|].
+    apply (ereach_snoc k j); [|exact (IH Pj)].
+    apply (edge_plain k n j E Hj). apply is_at_false. exact Hnd.
+Qed.
+
+Theorem sim_topo_order_ok : forall act,
+  (forall d, In d act -> In d dists) ->
+  (forall d p, In d act -> In p (d_params d) -> p <> d_at d) ->
+  (forall d p q, In d act -> In p (d_params d) -> isdist q -> reaches g q p = false) ->
+  (forall d p, In d act -> In p (d_params d) -> reaches g (d_tgt d) p = false) ->
+  NoDup (map d_tgt act) ->
+  sim_topo es (length g + 2) (map d_node act) -> order_ok g act.
+Proof.
+  induction act as [|d r IH]; intros Hin Hpa Hlp Hh Nd St; [exact I|].
+  cbn [map sim_topo] in St. destruct St as [St1 St2]. inversion Nd as [|? ? Nd1 Nd2]. subst.
+  cbn [order_ok]. split; [|split].
+  - intros d' [<-|Hd'] p Hp; [apply Hh; [left; reflexivity|exact Hp]|].
+    destruct (reaches g (d_tgt d') p) eqn:R; [exfalso|reflexivity].
+    apply (reaches_path F g W) in R.
+    assert (Hq : forall q, isdist q -> ~ path F g q p).
+    { intros q Hq Pq. apply (reaches_path F g W) in Pq. rewrite (Hlp d p q) in Pq; [discriminate|left; reflexivity|exact Hp|exact Hq]. }
+    pose proof (path_lt F g _ _ R) as Hpl.
+    pose proof (path_ereach p Hq _ _ R (path_refl F g p Hpl)) as E1.
+    destruct (dist_ins d (Hin d (or_introl eq_refl))) as [n [En Hi]].
+    assert (Hpi : In p (ins n)) by (rewrite Hi; apply in_or_app; left; exact Hp).
+    assert (Hf : is_at dists (d_node d) p = false).
+    { unfold is_at. destruct (existsb _ dists) eqn:Ex; [|reflexivity]. exfalso.
+      apply existsb_exists in Ex. destruct Ex as [d0 [Hd0 Hb]]. apply andb_true_iff in Hb. destruct Hb as [Hb1 Hb2].
+      apply Nat.eqb_eq in Hb1, Hb2. destruct (dist_ins d0 Hd0) as [n0 [En0 Hi0]]. rewrite Hb1, En in En0.
+      injection En0 as <-. rewrite Hi in Hi0. apply app_inj_tail in Hi0. destruct Hi0 as [_ Hat].
+      apply (Hpa d p (or_introl eq_refl) Hp). congruence. }
+    pose proof (edge_plain _ n p En Hpi Hf) as Ed.
+    pose proof (edge_tgt d' (Hin d' (or_intror Hd'))) as Et.
+    pose proof (ereach_snoc (d_node d) p Ed _ _ E1) as E2.
+    pose proof (ereach_cons _ _ _ _ Et E2) as E3.
+    assert (E4 : ereach es (length g + 2) (d_node d') (d_node d) = true).
+    { apply (ereach_le (S (S (p - d_tgt d')))); [lia|exact E3]. }
+    rewrite (St1 (d_node d')) in E4; [discriminate|]. apply in_map. exact Hd'.
+  - intros d' Hd' Heq. apply Nd1. rewrite <- Heq. apply in_map. exact Hd'.
+  - apply IH; auto.
+    + intros d0 H0. apply Hin. right. exact H0.
+    + intros d0 p H0. apply Hpa. right. exact H0.
+    + intros d0 p q H0. apply Hlp. right. exact H0.
+    + intros d0 p H0. apply Hh. right. exact H0.
+Qed.
+
+End SG.
